@@ -147,7 +147,9 @@ func inlinable(g *ssa.Function) (bool, string) {
 	if g.Recover != nil {
 		return false, "recover block"
 	}
-	if g.Synthetic != "" || g.TypeParams().Len() > 0 || len(g.TypeArgs()) > 0 {
+	// an instance of a generic function has a body of its own with the type arguments in place
+	instance := len(g.TypeArgs()) > 0 && g.Origin() != nil
+	if !instance && (g.Synthetic != "" || g.TypeParams().Len() > 0) {
 		return false, "synthetic or generic"
 	}
 	if len(g.Blocks[0].Preds) > 0 {
